@@ -63,6 +63,9 @@ def configs(tier):
     # orientation computed from the data ('top' / 'side') with a non-zero origin: the positions must not be shifted in place
     for dirn in ("top", "side"):
         out.append(dict(kind="map", res="dict", thick=False, opts="both", direction=dirn))
+    # orientation given as an OBJECT (a Vector of unit and of non-unit length, a VectorBasis): it is an input like any other
+    for dirn in ("vector-unit", "vector", "basis"):
+        out.append(dict(kind="map", res="dict", thick=False, opts="both", direction=dirn))
     for where in ("call", "layer"):
         out.append(dict(kind="hist2d", opts="both", nlayers=2, normobj=where))
         out.append(dict(kind="map", res="dict", thick=False, opts="both", normobj=where))
@@ -454,6 +457,23 @@ def _map(m, cfg):
     resolution = {"int": 2, "dict": {"x": 2, "y": 2}, "partial": {"x": 2}, "none": None}[res]
     if res == "none":
         resolution = None
+    dsnap = None
+    if dirn in ("vector-unit", "vector", "basis"):
+        tag += ":direction-" + dirn
+        from osyris.core.vector import VectorBasis
+        is_basis = dirn == "basis"
+        if is_basis:
+            dobj = VectorBasis(n=Vector(0.0, 0.0, 2.0, name="my_n"), u=Vector(1.0, 0.0, 0.0, name="my_u"), v=Vector(0.0, 3.0, 0.0, name="my_v"))
+            dvecs = [dobj.n, dobj.u, dobj.v]
+        else:
+            dobj = Vector(0.0, 0.0, 1.0 if dirn == "vector-unit" else 2.0, name="my_direction")
+            dvecs = [dobj]
+
+        def _dsnap():
+            return [(id(v), v.name, str(v.unit), [(id(c), c.name, [float(x) for x in np.ravel(c._array)]) for c in C.vcomps(v).values()])
+                    for v in dvecs] + ([(id(dobj.n), id(dobj.u), id(dobj.v))] if is_basis else [])
+        dsnap = _dsnap()
+        dirn = dobj
     kw = dict(dx=dxq, origin=origin, direction=dirn, plot=False, **copt)
     if resolution is not None:
         kw["resolution"] = resolution
@@ -500,6 +520,9 @@ def _map(m, cfg):
               key=f"modified-layer:{tag}")
     m.require(same_array(m, origin, osnap) and float(dxq.magnitude) == 1.0 and str(dxq.units) == "centimeter",
               "origin and window size are not modified", key=f"modified-origin:{tag}")
+    if dsnap is not None:
+        m.require(_dsnap() == dsnap, "a Vector / VectorBasis given as the direction is not modified (values, unit, names, identity of its parts)",
+                  key=f"modified-direction:{tag}", info=str([(v.name, [c.name for c in C.vcomps(v).values()]) for v in dvecs]))
     _repeat(m, p1, p2, tag)
     if nobj is not None:
         m.require((nobj.vmin, nobj.vmax, nobj.clip) == nsnap, "a norm object given as an option is not modified", key=f"modified-norm:{tag}",
